@@ -335,7 +335,8 @@ def install_readout_init(eng):
         return outs
     eng.contracts[D + "DataReadout.__init__"] = Contract(apply=apply_init)
 
-def p1reader_obligations(eng):
+def install_p1(eng):
+    """lemmas + call-site contracts shared by the P1 reader proofs; returns the lemma obligations"""
     obls = []
     lem, ax = S.text_lemmas(Obligation); l2, ax2 = S.fidx_le_lemma(Obligation); l3, ax3 = S.fidx_stable_lemma(Obligation)
     obls += lem + l2 + l3
@@ -353,6 +354,10 @@ def p1reader_obligations(eng):
             st.setf(buf, "_buffer", SBytes(G, z3.simplify(b.n + ch.n), b.off))
         return [(st, None)]
     eng.contracts[D + "_ReaderBuffer.extend"] = Contract(apply=apply_extend)
+    return obls
+
+def p1reader_obligations(eng):
+    obls = install_p1(eng)
     fn_rd, mod, cls = eng.funcs[P + "read"]
     LFb = z3.BitVecVal(LF, 8)
     for hunt in (True, False):
